@@ -6,7 +6,7 @@ M  CondMC: the mechanism of node.ParseAndInstrument / Node.Evaluate (Desugar ; N
    theorems (NNF / De Morgan / desugaring / set algebra / family / '!=' is the complement) are
    evaluated over the whole domain.  Two negative runs must fail: the as-built in-place mask
    (MaskInPlace) and the other reading of '!=' across IP families (NeqForeignFamily = FALSE).
-F  CondGen: every tree of height <= 1 over 67 atoms and every tree of height <= 2 over 5 (7) core
+F  CondGen: every tree of height <= 1 over 67 atoms and every tree of height <= 2 over 6 (7) core
    atoms, with the predicted answer for each of the 24 flows, is rendered to text, parsed by
    node.ParseAndInstrument and evaluated on real types.Key values: answer, key bytes afterwards,
    panics and order independence are compared per (tree, flow).
@@ -167,7 +167,7 @@ def main():
         g = vlib.tlc("cond", "CondGen", "CondGen.cfg", scratch=sc, timeout=1500,
                      consts='CONSTANT GenSet = "%s"' % ("thorough" if thorough else "quick"))
         vlib.expect_tlc_ok(g, "CondGen")
-        vlib.require(len(g.traces) > 9000 and g.infos, "generator produced too few cases")
+        vlib.require(len(g.traces) > 20000 and g.infos, "generator produced too few cases")
         run.add_tlc(g, "CondGen")
         _phase("F generator")
         universe = g.infos[0]["flows"]
@@ -219,7 +219,7 @@ def main():
 
         _phase("F classify + control")
         # ---------------------------------------------------------------- B
-        ntrees, depth, nfl = (20000, 5, 8) if thorough else (1200, 4, 6)
+        ntrees, depth, nfl = (20000, 5, 8) if thorough else (3000, 4, 6)
         p = subprocess.run([vh, "cond-drive", "-seed", str(run.seed), "-n", str(ntrees), "-depth", str(depth), "-flows", str(nfl)],
                            input=json.dumps({"flows": universe}) + "\n", stdout=subprocess.PIPE, stderr=subprocess.PIPE, text=True)
         if p.returncode != 0:
@@ -286,7 +286,7 @@ def main():
     run.cov["rule"] = ("F: all trees of height <=1 over 67 atoms and height <=2 over %d core atoms x 24 flows x 2 orders; "
                        "B: %d seeded random trees of height <=%d x %d random flows x 2 orders; distinct = conditions whose "
                        "selection over the universe is neither empty nor everything (F) plus distinct random texts (B)"
-                       % (7 if thorough else 5, ntrees, depth, nfl))
+                       % (7 if thorough else 6, ntrees, depth, nfl))
     run.assumptions += ["'a != v' is the complement of 'a = v' also across IP families (statement, sentence 1); cases that hinge on it are tagged",
                         "src/dst/port/protocol/ipproto are other names of sip/dip/dport/proto (help text attribute list; the swapped "
                         "src/dst example in the help text is taken to be a typo)",
